@@ -1,3 +1,154 @@
-/- Model for C19: not written yet -/
+/-
+Model of the `--disable-config-keywords` filter of the annotation updater:
+
+* `pkg/utils/utils.go`  `LineToSlice`
+* `pkg/converters/ingress/annotations/backend.go`  `asciiSpace`, `firstToken`,
+  `(*updater).buildBackendCustomConfig`
+* `pkg/converters/ingress/annotations/mapper.go`  `(*Mapper).Get` (which value the
+  backend sees when several annotations and the global ConfigMap carry `config-backend`)
+
+A Go string is a byte sequence: `Str = List Nat`, every element `< 256` when it comes from
+the driver (the theorems do not need the bound: a value outside the table is not a space,
+exactly like a byte `>= 128`).  Core-only.
+-/
 namespace HapVerif.C19
+
+abbrev Str := List Nat
+
+/-! ## `asciiSpace` and `firstToken` (backend.go) -/
+
+/-- `var asciiSpace = [256]uint8{'\t': 1, '\n': 1, '\v': 1, '\f': 1, '\r': 1, ' ': 1}`
+as (index, value) pairs; pinned to the Go source by `facts_c19`. -/
+def spaceTable : List (Nat × Nat) := [(9, 1), (10, 1), (11, 1), (12, 1), (13, 1), (32, 1)]
+
+/-- `asciiSpace[b]` -/
+def tbl (b : Nat) : Nat :=
+  match spaceTable.lookup b with
+  | some v => v
+  | none => 0
+
+/-- first loop of `firstToken`: `for ; len(s) > start; start++ { if asciiSpace[s[start]] == 0 { break } }` -/
+def skipBlanks : Str → Str
+  | [] => []
+  | b :: r => if tbl b == 0 then b :: r else skipBlanks r
+
+/-- second loop: `for ; len(s) > end; end++ { if asciiSpace[s[end]] == 1 { break } }` -/
+def takeToken : Str → Str
+  | [] => []
+  | b :: r => if tbl b == 1 then [] else b :: takeToken r
+
+/-- `firstToken(s)` = `s[start:end]` -/
+def firstToken (s : Str) : Str := takeToken (skipBlanks s)
+
+/-! ## `utils.LineToSlice` -/
+
+def nl : Nat := 10
+
+/-- `strings.TrimRight(s, "\n")` -/
+def trimRightNL : Str → Str
+  | [] => []
+  | b :: r => if (b :: r).all (· == nl) then [] else b :: trimRightNL r
+
+/-- `strings.Split(s, "\n")` (always at least one element) -/
+def splitNL : Str → List Str
+  | [] => [[]]
+  | b :: r =>
+    if b == nl then [] :: splitNL r
+    else match splitNL r with
+      | h :: t => (b :: h) :: t
+      | [] => [[b]]
+
+/-- `LineToSlice`: `""` gives `nil`, otherwise split the right-trimmed text -/
+def lineToSlice (s : Str) : List Str :=
+  if s = [] then [] else splitNL (trimRightNL s)
+
+/-! ## `Mapper.Get` restricted to one key
+
+`anns` are the values registered for `config-backend` on the backend's mapper, in
+registration order (Service annotation, then Ingress annotation, then IngressClass
+parameters, path after path); the label identifies the source object.  The first
+registered value wins; without any, the global ConfigMap/default value is returned with a
+nil source. -/
+
+structure Cfg where
+  source : Option String
+  value : Str
+deriving Repr, DecidableEq
+
+def mapperGet (anns : List (String × Str)) (glob : Str) : Cfg :=
+  match anns with
+  | [] => { source := none, value := glob }
+  | (l, v) :: _ => { source := some l, value := v }
+
+/-! ## `buildBackendCustomConfig` -/
+
+def star : Str := [42]
+
+inductive Outcome where
+  | noSnippet                                  -- `len(lines) == 0`
+  | emitted (lines : List Str)                 -- `d.backend.CustomConfig = lines`
+  | skipStar (src : Option String)             -- "custom configuration is disabled"
+  | skipKw (src : Option String) (kw : Str)    -- "keyword '%s' not allowed"
+deriving Repr, DecidableEq
+
+/-- the keyword loop; `none` = fell through -/
+def scan (src : Option String) (lines : List Str) : List Str → Option Outcome
+  | [] => none
+  | k :: ks =>
+    if k = [] then scan src lines ks
+    else if k = star then some (.skipStar src)
+    else if lines.any (fun l => firstToken l == k) then some (.skipKw src k)
+    else scan src lines ks
+
+/-- note: `cfg.source` only feeds the log text — a nil (global) source runs the same loop -/
+def customConfig (kws : List Str) (cfg : Cfg) : Outcome :=
+  let lines := lineToSlice cfg.value
+  if lines = [] then .noSnippet else
+  match scan cfg.source lines kws with
+  | some o => o
+  | none => .emitted lines
+
+/-- `Backend.CustomConfig` after the call on a freshly acquired backend -/
+def Outcome.lines : Outcome → List Str
+  | .emitted ls => ls
+  | _ => []
+
+def run (kws : List Str) (anns : List (String × Str)) (glob : Str) : Outcome :=
+  customConfig kws (mapperGet anns glob)
+
+/-! ## Specification (oracle)
+
+What property C19 demands of the snippet lines `out` that reach a backend, given the
+disabled keywords, the annotation values and the global value.  Written with its own
+notion of "first token" (C `isspace` blanks, which is what HAProxy's parser skips), not
+with the model's table loops. -/
+
+/-- C-locale `isspace` -/
+def isSpace (b : Nat) : Bool := b == 32 || b == 9 || b == 10 || b == 11 || b == 12 || b == 13
+
+def specToken (l : Str) : Str := (l.dropWhile isSpace).takeWhile (fun b => !isSpace b)
+
+/-- keywords that count: the empty entry (e.g. from `a,,b`) disables nothing -/
+def disabled (kws : List Str) (k : Str) : Bool := k ≠ [] && kws.contains k
+
+def dirtyLine (kws : List Str) (l : Str) : Bool := disabled kws (specToken l)
+
+def oracle (kws : List Str) (anns : List (String × Str)) (glob : Str) (out : List Str) : Option String :=
+  let sel := mapperGet anns glob
+  let lines := lineToSlice sel.value
+  match sel.source with
+  | none =>
+    -- global ConfigMap snippets are exempt from the filter
+    if out = lines then none
+    else if out = [] then some "global-source-snippet-filtered"
+    else some "global-snippet-altered"
+  | some _ =>
+    if disabled kws star && out ≠ [] then some "star-leaked"
+    else if out.any (dirtyLine kws) then some "annotation-keyword-leaked"
+    else if lines.any (dirtyLine kws) && out ≠ [] then some "dirty-snippet-not-dropped-as-a-whole"
+    else if disabled kws star || lines.any (dirtyLine kws) then none
+    else if out = lines then none
+    else if out = [] then some "clean-snippet-dropped"
+    else some "clean-snippet-altered"
+
 end HapVerif.C19
